@@ -48,8 +48,22 @@ func (p *Pool) KnownField(t *rapid.T) TField {
 // a known enterprise, unknown enterprise) with a fixed or variable wire length.
 func (p *Pool) UnknownField(t *rapid.T, allowZeroLen bool) TField {
 	for {
-		ent := rapid.SampledFrom([]uint32{0, 0, 29305, 56506, 4242, 0xFFFFFFFF}).Draw(t, "uent")
+		// enterprises: IANA, the two registered ones (with ids they do not define), unregistered ones,
+		// and unregistered numbers above 2^16 whose low 16 bits equal a registered enterprise
+		ent := rapid.SampledFrom([]uint32{0, 0, 29305, 56506, 4242, 0xFFFFFFFF, 65536, 131072, 65536 + 29305, 65536 + 56506, 0x80000000, 7<<16 + 29305}).Draw(t, "uent")
 		id := uint16(rapid.IntRange(1, 0x7FFF).Draw(t, "uid"))
+		if ent >= 65536 && ent != 0xFFFFFFFF && rapid.Bool().Draw(t, "alias") {
+			// ... together with an element id that the registered enterprise does define
+			var ids []uint16
+			for _, f := range p.Known {
+				if f.Ent == ent&0xFFFF {
+					ids = append(ids, f.ID)
+				}
+			}
+			if len(ids) > 0 {
+				id = ids[rapid.IntRange(0, len(ids)-1).Draw(t, "aliasid")]
+			}
+		}
 		if p.IsKnown(ent, id) {
 			continue
 		}
